@@ -377,6 +377,26 @@ func (r *Run) CheckUP4Image(prop, ctx, cause string, o UP4Opts) {
 				}
 			}
 			if q != nil {
+				// the application meter cell the entry points at carries the QER's rate
+				// of this direction (PFCP: kbit/s; P4Runtime: byte/s); no rate = 0
+				// (judged for sessions with a single QER, where the plug-in keeps one
+				// cell per direction; with two QERs it keeps one cell per application QER)
+				if idx, ok := v.param(e, "app_meter_idx"); ok && idx != 0 && len(m.s.QERs) == 1 {
+					mbr := q.MBRDL
+					if uplink {
+						mbr = q.MBRUL
+					}
+					if !q.HasMBR {
+						mbr = 0
+					}
+					got := int64(0)
+					if cfg := sw.Meters[sw.ID(mApp)][int64(idx)]; cfg != nil {
+						got = cfg.Pir
+					}
+					if got != int64(mbr*1000/8) {
+						bad(m.s.UPSEID, "meters", "app-meter-rate", "PDR %d of session up=%d: application meter cell %d has peak rate %d byte/s, QER %d asks for %d kbit/s = %d byte/s in this direction", m.p.ID, m.s.UPSEID, idx, got, q.ID, mbr, mbr*1000/8)
+					}
+				}
 				wantTC := uint64(o.DefaultTC)
 				if tc, ok := o.QFIToTC[q.QFI]; ok {
 					wantTC = uint64(tc)
@@ -421,6 +441,7 @@ func (r *Run) CheckUP4Image(prop, ctx, cause string, o UP4Opts) {
 	if r.Inc > 1 && cells > 2*nQER {
 		// the agent was restarted in this run: start-up clears the tables but
 		// leaves the meter cells of the previous incarnation configured
+		r.Soft()
 		r.Violate(prop, "meters:stale-cells-after-agent-restart", "%s: %d application / session meter cells are configured for %d live QERs; the agent was restarted earlier in this run and does not reset meter cells at start-up", ctx, cells, nQER)
 	} else {
 		if nQER == 0 && cells > 0 {
